@@ -25,6 +25,9 @@ fn predicates() -> gen::VS {
         1 => Just(json!({"log": [{"var": ""}]})),
         1 => Just(json!({"map": [{"var": ""}, 1]})),             // errors on non-arrays, [] (falsy) on []
         1 => Just(json!({"var": "a"})),
+        1 => Just(json!({"var": {"var": "pick"}})),
+        1 => Just(json!({"var": {"cat": ["v_", {"var": "pick"}]}})),
+        1 => Just(json!({"!": [{"missing": ["a"]}]})),
         1 => Just(json!({"var": "outer"})),
         1 => Just(json!({"<": [{"var": ""}, "b"]})),
         1 => Just(json!({"cat": [{"var": ""}]})),
@@ -39,6 +42,7 @@ fn element_values() -> gen::VS {
         2 => select(vec![json!(0), json!(""), json!([]), Value::Null, json!(false)]),
         2 => select(vec![json!("a"), json!("é"), json!("😀"), json!("b"), json!(2), json!(true), json!([0]), json!({})]),
         1 => Just(json!({"a": 1})),
+        2 => select(vec![json!({"pick": "x", "v_x": 0, "v_y": 1, "x": 0, "y": 1}), json!({"pick": "y", "v_x": 0, "v_y": 1, "x": 0, "y": 1}), json!({"pick": "a", "a": ""}), json!({"max": 10}), json!({"in": "stock"})]),
         1 => gen::op_shaped(),
         1 => gen::scalars(),
     ]
